@@ -112,6 +112,7 @@ func Load(dir string, cfg Config, patterns ...string) (*Prog, error) {
 	p.collectSrcFuncs()
 	p.computeNoReturn()
 	curProg = p
+	keyMemo = map[ssa.Value]string{}
 	return p, nil
 }
 
